@@ -25,7 +25,10 @@ Inductive case :=
 (* runtime.CheckHashedWitness on a VM whose invocation stack was built to give each context of [all_ctx] *)
 | CScope (signers : list signer) (h : N) (impl : list N)
 (* System.Runtime.CheckWitness executed inside deployed contracts on a live chain, in the given context *)
-| CLive (signers : list signer) (h : N) (cal cur : N) (be rs : bool) (impl : N).
+| CLive (signers : list signer) (h : N) (cal cur : N) (be rs : bool) (impl : N)
+(* the same with an explicit contract table: the state of ContractManagement AT THE MOMENT OF THE CHECK (a contract
+   that updated itself earlier in the invocation has its new groups, one that destroyed itself is absent) *)
+| CLiveT (table : list (N * list N)) (signers : list signer) (h : N) (cal cur : N) (be rs : bool) (impl : N).
 
 (* The specification is only evaluated when the observation differs from the mechanism model: where they agree the
    specification is met by theorem (WitnessProofs: check_hashed_witness_specb / cmatch_holdsb give the Ok answers,
@@ -62,6 +65,10 @@ Definition check_case (cs : case) : N :=
       let spec := fun _ : unit => all2 (fun x i => obs_ok (witness_specb x signers h)
                                           (negb (read_states x) || match signers with [] => true | _ => false end) i) all_ctx impl in
       code3 model spec
+  | CLiveT table signers h cal cur be rs impl =>
+      let x := mk_wctx cal cur be rs table in
+      let model := impl =? rcode (check_hashed_witness x signers h) in
+      code3 model (fun _ => obs_ok (witness_specb x signers h) (negb rs || match signers with [] => true | _ => false end) impl)
   | CLive signers h cal cur be rs impl =>
       let x := mk_wctx cal cur be rs universe in
       let model := impl =? rcode (check_hashed_witness x signers h) in
